@@ -141,6 +141,12 @@ func (res *Response) Write(data []byte) (int, error) {
 		// the new body data.
 		// Else, send header buffer first, then process the data.
 		if len(*pbuf)+len(data) < maxPacketSize {
+			if res.bodyBuffer != nil {
+				// Body data cached before the head was encoded
+				// goes after the head.
+				pbuf = mempool.Append(pbuf, (*res.bodyBuffer)...)
+				mempool.Free(res.bodyBuffer)
+			}
 			res.bodyBuffer = pbuf
 			goto APPEND_BODY
 		} else {
